@@ -5,12 +5,20 @@ import SfProofs.RdwrOpen
 import SfProofs.ContainerWav
 namespace Sf
 
+/-- RAW and AU have nothing behind the data -/
+theorem RwView.bytes_nowav {h : H} {s : Store} {R W F : Nat} {hdr D : List Byte} (v : RwView h s R W F hdr D)
+    (hc : h.container ≠ .wav) : s.bytes = hdr ++ D := by
+  obtain ⟨t, hb, ht⟩ := v.bytes
+  rcases ht with h0 | ⟨_, hw⟩
+  · rw [hb, h0]; simp [zeros]
+  · exact absurd hw hc
+
 theorem RwView.close_raw {h : H} {s : Store} {R W F : Nat} {hdr D : List Byte} (v : RwView h s R W F hdr D)
     (hc : h.container = .raw) : (closeHandle h s).bytes = D := by
   have h0 : hdr = [] := List.eq_nil_of_length_eq_zero (by rw [v.hlen]; simp [hdrLenOf, hc])
   unfold closeHandle
   rw [v.mode, hc]
-  simp [v.bytes, h0]
+  simp [v.bytes_nowav (by rw [hc]; decide), h0]
 
 theorem RwView.close_au {h : H} {s : Store} {R W F : Nat} {hdr D : List Byte} (v : RwView h s R W F hdr D)
     (hc : h.container = .au) :
@@ -18,12 +26,13 @@ theorem RwView.close_au {h : H} {s : Store} {R W F : Nat} {hdr D : List Byte} (v
   unfold closeHandle
   rw [v.mode, hc]
   simp only [show (Mode.rw == Mode.r) = false from rfl, Bool.false_eq_true, if_false]
-  rw [writeHeader_snd h s true hdr D v.bytes v.hlen v.doff v.posGe]
+  have hnw : h.container ≠ .wav := by rw [hc]; decide
+  rw [writeHeader_snd h s true hdr D (v.bytes_nowav hnw) v.hlen v.doff v.posGe]
   simp only
   congr 1
   have hdl : (recalc h s.bytes.length true).datalength = (D.length : Int) := by
     rw [recalc_datalength]
-    simp only [hc, v.dataend, v.doff, v.bytes, List.length_append, v.hlen]
+    simp only [hc, v.dataend hnw, v.doff, v.bytes_nowav hnw, List.length_append, v.hlen]
     simp; omega
   unfold hdrOf
   rw [recalc_container, hc]
@@ -39,9 +48,10 @@ theorem wavPadAt_length (n : Nat) : (wavPadAt n).length ≤ 1 := by unfold wavPa
 /-- the final header rewrite of `wav_close`, whatever the stale length fields were -/
 theorem close_wav_core (X : H) (hdr D pad : List Byte) (p O F : Nat) (hc : X.container = .wav) (hO : hdrLenOf X = O)
     (hl : hdr.length = O) (hd : X.dataoffset = (O : Int)) (hde : X.dataend = ((O + D.length : Nat) : Int))
-    (hF : X.frames = (F : Int)) (hpk : X.peak = none) (hp : O ≤ p) :
+    (hF : X.frames = (F : Int)) (pk : Option (List Peak)) (hpk : X.peak = pk)
+    (hpas : pk = none ∨ X.peakAtStart = true) (hp : O ≤ p) :
     (Sf.writeHeader X { bytes := hdr ++ D ++ pad, pos := p } true).2.bytes =
-      wavHdr_ct X.big (codecOf X.fmtWord) X.enc.nbytes X.ch X.sr F none true
+      wavHdr_ct X.big (codecOf X.fmtWord) X.enc.nbytes X.ch X.sr F pk true
         ((O + D.length + pad.length : Nat) : Int) (D.length : Int) ++ D ++ pad := by
   subst hO
   have hO : 0 < hdrLenOf X := by simp only [hdrLenOf, hc]; exact wavHdrLen_pos X
@@ -57,51 +67,98 @@ theorem close_wav_core (X : H) (hdr D pad : List Byte) (p O F : Nat) (hc : X.con
   have e3 : hdrOf (recalc X (hdr ++ (D ++ pad)).length true) = wavHeader (recalc X (hdr ++ (D ++ pad)).length true) := by
     unfold hdrOf; rw [recalc_container, hc]
   rw [e3, wavHeader_eq_ct, e1, e2]
-  simp [H.nb, hF, hpk]
-  cases X.peakAtStart <;> rfl
+  simp only [recalc_big, recalc_fmtWord, recalc_ch, recalc_sr, recalc_frames, recalc_peak, recalc_peakAtStart, H.nb,
+    recalc_enc, hF, hpk]
+  rcases hpas with h1 | h1
+  · rw [h1]; cases X.peakAtStart <;> rfl
+  · rw [h1]
 
+/-- `wav_write_tailer` when a PEAK chunk, if any, sits in front of the data: seek to the end of the data, write the pad byte -/
+theorem wavTailer_nopeaktail (h : H) (s : Store) (hpas : ∀ ps, h.peak = some ps → h.peakAtStart = true)
+    (hpos : h.dataoffset + h.frames * (h.nb : Int) * (h.ch : Int) > 0) :
+    wavTailer h s =
+      ({ h with datalength := h.frames * h.nb * h.ch, dataend := h.dataoffset + h.frames * h.nb * h.ch },
+       (s.seekSet (h.dataoffset + h.frames * h.nb * h.ch).toNat).write
+         (if (h.dataoffset + h.frames * h.nb * h.ch) % 2 == 1 then [0] else [])) := by
+  unfold wavTailer
+  simp only [hpos, if_true]
+  cases hp : h.peak with
+  | none => simp
+  | some ps => simp [hpas ps hp]
+
+/-- closing a WAV: fresh header, the data, and at most one zero byte behind it — the pad byte when the data section
+    ends on an odd offset (written, or already there), otherwise whatever `wav_close` did not cut -/
 theorem RwView.close_wav {h : H} {s : Store} {R W F : Nat} {hdr D : List Byte} (v : RwView h s R W F hdr D)
     (hc : h.container = .wav) :
-    (closeHandle h s).bytes =
-      wavHdr_ct h.big (codecOf h.fmtWord) h.enc.nbytes h.ch h.sr F none true
-        ((hdrLenOf h + D.length + (wavPadAt (hdrLenOf h + D.length)).length : Nat) : Int) (D.length : Int) ++ D ++
-        wavPadAt (hdrLenOf h + D.length) := by
+    ∃ t2 : Nat, t2 ≤ 1 ∧ ((hdrLenOf h + D.length) % 2 = 1 → t2 = 1) ∧
+      (closeHandle h s).bytes =
+        wavHdr_ct h.big (codecOf h.fmtWord) h.enc.nbytes h.ch h.sr F h.peak true
+          ((hdrLenOf h + D.length + t2 : Nat) : Int) (D.length : Int) ++ D ++ zeros t2 := by
   have hO : 0 < hdrLenOf h := by simp only [hdrLenOf, hc]; exact wavHdrLen_pos h
+  obtain ⟨t, hb, ht⟩ := v.bytes
+  have hpas : h.peak = none ∨ h.peakAtStart = true := by
+    cases hp : h.peak with
+    | none => left; rfl
+    | some ps => right; exact (v.peak ps hp).2
+  have ht1 : t ≤ 1 := by rcases ht with h0 | ⟨h1, _⟩ <;> omega
   have hdlen : h.frames * (h.nb : Int) * (h.ch : Int) = (D.length : Int) := by
     rw [v.frames, v.dlen]; unfold H.bw H.nb; push_cast; rw [Int.mul_assoc]
   have hde2 : h.dataoffset + (D.length : Int) = ((hdrLenOf h + D.length : Nat) : Int) := by
     rw [v.doff]; push_cast; rfl
   have hpos : ((hdrLenOf h + D.length : Nat) : Int) > 0 := by omega
-  have hlenB : s.bytes.length = hdrLenOf h + D.length := by rw [v.bytes, List.length_append, v.hlen]
   have hpad : (if (((hdrLenOf h + D.length : Nat) : Int) % 2 == 1) = true then [(0 : Byte)] else []) =
       wavPadAt (hdrLenOf h + D.length) := by
     unfold wavPadAt
     by_cases hodd : (hdrLenOf h + D.length) % 2 = 1
     · rw [if_pos hodd, if_pos (by rw [beq_iff_eq]; omega)]
     · rw [if_neg hodd, if_neg (by rw [beq_iff_eq]; omega)]
-  have hwr : (s.seekSet (hdrLenOf h + D.length)).write (wavPadAt (hdrLenOf h + D.length)) =
-      { bytes := hdr ++ D ++ wavPadAt (hdrLenOf h + D.length),
-        pos := hdrLenOf h + D.length + (wavPadAt (hdrLenOf h + D.length)).length } := by
-    rw [Store.write_end _ _ (by simp [Store.seekSet, hlenB])]
-    simp [Store.seekSet, v.bytes]
+  -- the tailer: seek to the end of the data, write the pad byte (over the one that may be there)
+  obtain ⟨t1, p, hwr, hp1, hodd1, hcut⟩ : ∃ t1 p : Nat,
+      (s.seekSet (hdrLenOf h + D.length)).write (wavPadAt (hdrLenOf h + D.length)) =
+        { bytes := hdr ++ D ++ zeros t1, pos := hdrLenOf h + D.length + p } ∧ t1 ≤ 1 ∧
+      ((hdrLenOf h + D.length) % 2 = 1 → t1 = 1 ∧ p = 1) ∧ (p = 0 ∨ (p = 1 ∧ t1 = 1)) := by
+    by_cases hodd : (hdrLenOf h + D.length) % 2 = 1
+    · refine ⟨1, 1, ?_, Nat.le_refl _, fun _ => ⟨rfl, rfl⟩, Or.inr ⟨rfl, rfl⟩⟩
+      have hw : wavPadAt (hdrLenOf h + D.length) = [0] := by unfold wavPadAt; rw [if_pos hodd]
+      rw [hw, write_nonempty _ _ (by simp)]
+      simp only [Store.seekSet, hb, ← v.hlen, writeAt_append, writeAt_zeros_tail, writeAt_end, List.length_singleton]
+      have : t - (D.length + 1 - D.length) = 0 := by omega
+      rw [this]; simp [zeros]
+    · refine ⟨t, 0, ?_, ht1, fun hx => absurd hx hodd, Or.inl rfl⟩
+      have hw : wavPadAt (hdrLenOf h + D.length) = [] := by unfold wavPadAt; rw [if_neg hodd]
+      rw [hw]
+      simp [Store.write, Store.seekSet, hb]
   unfold closeHandle
   rw [v.mode, hc]
   simp only [show (Mode.rw == Mode.r) = false from rfl, Bool.false_eq_true, if_false]
-  unfold wavTailer
-  simp only [hdlen, hde2, hpos, v.peak, if_true, Int.toNat_natCast, List.append_nil, hpad, hwr, v.mode,
-    show (Mode.rw == Mode.rw) = true from rfl]
-  have hp : hdrLenOf h ≤ hdrLenOf h + D.length + (wavPadAt (hdrLenOf h + D.length)).length := by omega
-  have ht : List.take (hdrLenOf h + D.length + (wavPadAt (hdrLenOf h + D.length)).length)
-      (hdr ++ D ++ wavPadAt (hdrLenOf h + D.length)) = hdr ++ D ++ wavPadAt (hdrLenOf h + D.length) :=
-    List.take_of_length_le (by simp [v.hlen]; omega)
-  rw [ht]
+  rw [wavTailer_nopeaktail h s (fun ps hp => (v.peak ps hp).2) (by rw [hdlen, hde2]; exact hpos)]
+  simp only [hdlen, hde2, Int.toNat_natCast, hpad, hwr, v.mode, show (Mode.rw == Mode.rw) = true from rfl, if_true]
+  have hp : hdrLenOf h ≤ hdrLenOf h + D.length + p := by omega
+  have hcore : ∀ (X : H) (tt : Nat), X.container = .wav → hdrLenOf X = hdrLenOf h → X.dataoffset = h.dataoffset →
+      X.dataend = ((hdrLenOf h + D.length : Nat) : Int) → X.frames = h.frames → X.peak = h.peak → X.peakAtStart = h.peakAtStart →
+      X.big = h.big → X.fmtWord = h.fmtWord → X.enc = h.enc → X.ch = h.ch → X.sr = h.sr →
+      (Sf.writeHeader X { bytes := hdr ++ D ++ zeros tt, pos := hdrLenOf h + D.length + p } true).2.bytes =
+        wavHdr_ct h.big (codecOf h.fmtWord) h.enc.nbytes h.ch h.sr F h.peak true
+          ((hdrLenOf h + D.length + tt : Nat) : Int) (D.length : Int) ++ D ++ zeros tt := by
+    intro X tt x1 x2 x3 x4 x5 x6 x6b x7 x8 x9 x10 x11
+    have := close_wav_core X hdr D (zeros tt) _ (hdrLenOf h) F x1 x2 v.hlen (by rw [x3]; exact v.doff) x4
+      (by rw [x5]; exact v.frames) h.peak x6 (by rw [x6b]; exact hpas) hp
+    rw [this, x7, x8, x9, x10, x11, zeros_length]
+  have htake : List.take (hdrLenOf h + D.length + p) (hdr ++ D ++ zeros t1) = hdr ++ D ++ zeros (p * t1) := by
+    rcases hcut with h0 | ⟨h1, h2⟩
+    · rw [h0, Nat.add_zero, Nat.zero_mul, ← v.hlen, ← List.length_append, List.take_left' rfl]; simp [zeros]
+    · rw [h1, h2, List.take_of_length_le (by simp [v.hlen, zeros]; omega)]
   split
   · split
-    · exact close_wav_core _ hdr D _ _ (hdrLenOf h) F hc (hdrLenOf_congr_rw _ _ rfl rfl v.peak.symm rfl) v.hlen v.doff rfl
-        v.frames rfl hp
-    · exact close_wav_core _ hdr D _ _ (hdrLenOf h) F hc (hdrLenOf_congr_rw _ _ rfl rfl v.peak.symm rfl) v.hlen v.doff rfl
-        v.frames rfl hp
-  · exact close_wav_core _ hdr D _ _ (hdrLenOf h) F hc (hdrLenOf_congr_rw _ _ rfl rfl v.peak.symm rfl) v.hlen v.doff rfl
-      v.frames rfl hp
+    · rw [htake]
+      refine ⟨p * t1, ?_, ?_, hcore _ _ hc (hdrLenOf_congr_rw _ _ rfl rfl rfl rfl) rfl rfl rfl rfl rfl rfl rfl rfl rfl rfl⟩
+      · rcases hcut with h0 | ⟨h1, h2⟩
+        · rw [h0]; omega
+        · rw [h1, h2]; omega
+      · intro hx; obtain ⟨a, b⟩ := hodd1 hx; rw [a, b]
+    · exact ⟨t1, hp1, fun hx => (hodd1 hx).1,
+        hcore _ _ hc (hdrLenOf_congr_rw _ _ rfl rfl rfl rfl) rfl rfl rfl rfl rfl rfl rfl rfl rfl rfl⟩
+  · exact ⟨t1, hp1, fun hx => (hodd1 hx).1,
+      hcore _ _ hc (hdrLenOf_congr_rw _ _ rfl rfl rfl rfl) rfl rfl rfl rfl rfl rfl rfl rfl rfl rfl⟩
 
 end Sf
